@@ -9,6 +9,7 @@ BBMOD = 'photutils.aperture.bounding_box:BoundingBox'
 def register(reg):
     register_extents(reg)
     register_circular_to_mask(reg)
+    register_ell_rect_to_mask(reg)
     register_bbox(reg)
     register_xy_extents(reg)
     register_mask_mode(reg)
@@ -502,3 +503,58 @@ def register_circular_to_mask(reg):
                 ('mask -= circular_overlap_grid(edges[0], edges[1], edges[2],',
                  'mask += circular_overlap_grid(edges[0], edges[1], edges[2],')] if inner else []),
         ))
+
+
+def register_ell_rect_to_mask(reg):
+    """The same data-flow statement for elliptical and rectangular apertures and annuli: outer
+    kernel grid minus inner kernel grid on the same pixels, both with the aperture's own axes /
+    sides, the angle in radians and the translated method (rectangles: use_exact = 0)."""
+    from ..pyvc.values import SObj
+    consts = {'u': SObj('module', {'radian': 'radian'})}
+    e = 'edges[0], edges[1], edges[2], edges[3], bbox.shape[1], bbox.shape[0]'
+    for (kname, kfile, ufn, mixin, mfile, single, ann, mode) in (
+            ('elliptical_overlap_grid', 'photutils/geometry/elliptical_overlap.pyx', 'egrid_',
+             'EllipticalMaskMixin', 'photutils/aperture/ellipse.py', ('a', 'b'),
+             ('a_in', 'b_in', 'a_out', 'b_out'), 'use_exact'),
+            ('rectangular_overlap_grid', 'photutils/geometry/rectangular_overlap.pyx', 'rgrid_',
+             'RectangularMaskMixin', 'photutils/aperture/rectangle.py', ('w', 'h'),
+             ('w_in', 'h_in', 'w_out', 'h_out'), '0')):
+        p1, p2 = ('rx', 'ry') if ufn == 'egrid_' else ('width', 'height')
+        a = f'xmin, xmax, ymin, ymax, nx, ny, {p1}, {p2}, theta, use_exact, subpixels'
+        reg.add(Contract(
+            target=f'{kfile}::{kname}', props=['C01'], pyx=True,
+            params={'xmin': 'real', 'xmax': 'real', 'ymin': 'real', 'ymax': 'real', 'nx': 'pos',
+                    'ny': 'pos', p1: 'real', p2: 'real', 'theta': 'real', 'use_exact': 'int',
+                    'subpixels': 'int'},
+            ensures=[('shape', 'result.shape == (ny, nx)'),
+                     ('names-the-grid', f'forall(lambda j, i: result[j, i] == {ufn}(j, i, {a}), '
+                                        '(0, ny), (0, nx))')],
+            returns=('arr', 2, 'real'), assumed=True,
+            note=f'{ufn} names the output of the compiled kernel {kname} (assumed: a fresh '
+                 '(ny, nx) float array)',
+        ))
+        loc = ('a', 'b') if ufn == 'egrid_' else ('w', 'h')
+        for tag, flds, inner in (('aperture', single, None), ('annulus', ann, ann[:2])):
+            rec = f'{mixin}@{tag}'
+            reg.record(rec, {**{f: 'posreal' for f in flds}, 'theta': 'Quantity'})
+            outer_axes = single if inner is None else ann[2:]
+            outer = (f'{ufn}(j, i, {e}, {loc[0]}, {loc[1]}, self.theta.rad, {mode}, subpixels)')
+            expect = outer if inner is None else \
+                (f'{outer} - {ufn}(j, i, {e}, self.{inner[0]}, self.{inner[1]}, self.theta.rad, '
+                 f'{mode}, subpixels)')
+            muts = [('ny, nx = bbox.shape', 'nx, ny = bbox.shape')]
+            if inner:
+                muts.append((f'self.{inner[0]},', f'self.{ann[2]},'))
+            reg.add(Contract(
+                target=f'{mfile}::{mixin}.to_mask', props=['C01', 'C02', 'C16'], kind='method',
+                tag='grid-' + tag, block=('ny', 'mask'), consts=consts,
+                params={'self': rec, 'bbox': ('record', 'BBoxShape', {'shape': ('tuple', 'pos', 'pos')}),
+                        'edges': ('tuple', 'real', 'real', 'real', 'real'), loc[0]: 'real',
+                        loc[1]: 'real', 'use_exact': 'int', 'subpixels': 'int'},
+                requires=[f'{loc[0]} == self.{outer_axes[0]}', f'{loc[1]} == self.{outer_axes[1]}'],
+                ensures=[('shape', 'mask.shape == bbox.shape'),
+                         ('outer-kernel-grid-minus-inner-on-the-same-pixels',
+                          f'forall(lambda j, i: mask[j, i] == {expect}, (0, bbox.shape[0]), '
+                          '(0, bbox.shape[1]))')],
+                mutants=muts,
+            ))
